@@ -83,6 +83,22 @@ int main(int argc, char** argv) {
     RCHECK((e == NONE) == (off < len), "get_line at %zu on %zu bytes: %s", off, len, e == NONE ? "returned" : "threw");
     if (e == NONE) { RCHECK(off > len || r.where() <= len, "cursor %zu is beyond the end of the %zu-byte buffer (remaining() = %zu)", r.where(), len, r.remaining());
       RCHECK(memcmp(s.data(), d + off, s.size()) == 0, "line content"); }
+    // the same line once more, terminated by CR LF and by LF alone: the line is the bytes up to the terminator (a trailing CR removed),
+    // the cursor ends right behind the LF (or at the end of the data when there is none)
+    if (off < len) {
+      for (int crlf = 0; crlf < 2; crlf++) {
+        size_t nl = off; while (nl < len && d[nl] != '\n') nl++;
+        for (size_t i = off; i < nl; i++) if (d[i] == '\r') d[i] = 'y';
+        if (crlf && nl > off) d[nl - 1] = '\r';
+        StringReader r2(d, len, off);
+        string s2; Exc e2 = run([&] { s2 = r2.get_line(adv); });
+        size_t body = nl - off - ((crlf && nl > off) ? 1 : 0);
+        RCHECK(e2 == NONE, "get_line threw on a %s line", crlf ? "CRLF-terminated" : "LF-terminated");
+        RCHECK(s2.size() == body && memcmp(s2.data(), d + off, body) == 0, "get_line on a %s line returned %zu bytes, the line has %zu", crlf ? "CRLF-terminated" : "LF-terminated", s2.size(), body);
+        size_t want = adv ? (nl < len ? nl + 1 : len) : off;
+        RCHECK(r2.where() == want, "cursor after get_line on a %s line: %zu, expected %zu (right behind the line terminator)", crlf ? "CRLF-terminated" : "LF-terminated", r2.where(), want);
+      }
+    }
   }
   else if (m == "bitr_pread" || m == "bitr_read") {
     // len / offsets are in bits here
